@@ -83,7 +83,8 @@ def build_expr_cases(ctx, per_cell, deep):
                 return ac.atom(ac.value_tree(kk, ac.pick_value(rng, kk, 0.4)))
             op = rng.choice(["add", "sub", "mul"] + (["band", "bxor"] if kind in "il" else []))
             return ("P", ("B", op, gen(d - 1), gen(d - 1)))
-        add("d", gen(rng.choice([2, 3]))[1])
+        g = gen(rng.choice([2, 3]))
+        add("d", g[1] if g[0] == "P" else g)
         dist["deep"] += 1
     return cases, dist
 
@@ -158,11 +159,13 @@ def run(ctx):
         ctx.violation(key, what, r)
 
     # ---- expression cases ------------------------------------------------------------
-    cases, dist = build_expr_cases(ctx, 14 if quick else 60, 300 if quick else 3000)
     corpus = load_corpus()
+    cases = collections.OrderedDict()          # the corpus always runs first
     for i, obj in enumerate(corpus):
         if obj.get("kind") == "expr":
             cases["k%05d" % i] = totuple(obj["tree"])
+    gen_cases, dist = build_expr_cases(ctx, 40 if quick else 150, 1500 if quick else 12000)
+    cases.update(gen_cases)
     res = ae.eval_expr_cases(cases, Tp, work, "c11", legs=("var",))
     if res.get("?model_errors"):
         ctx.correspondence_broken("model-driver", res["?model_errors"][:3])
@@ -221,10 +224,11 @@ def run(ctx):
             ctx.sample({"program": r["src_var"], "vm": real, "model": rt, "reference": expected})
 
     # ---- assignments --------------------------------------------------------------------
-    acases = build_assign_cases(ctx, 10 if quick else 40)
+    acases = collections.OrderedDict()
     for i, obj in enumerate(corpus):
         if obj.get("kind") == "assign":
             acases["ka%04d" % i] = (obj["left"], 0, totuple(obj["tree"]), obj["right"], obj["value"])
+    acases.update(build_assign_cases(ctx, 30 if quick else 120))
     lines, progs = [], []
     for cid, (kl, old, tree, kr, v) in acases.items():
         lines.append("A %s %s (L %s 0) %s" % (cid, ac.KIND_TY[kl], kl, ac.sx(tree)))
@@ -262,7 +266,7 @@ def run(ctx):
             counts["model=real"] += 1
 
     # ---- number-to-string concatenation ---------------------------------------------------
-    scases = build_concat_cases(ctx, 25 if quick else 150)
+    scases = build_concat_cases(ctx, 80 if quick else 400)
     lines, progs = [], []
     for cid, (kind, v, left) in scases.items():
         lines.append("S %s (L %s %s)" % (cid, kind, ac.hexnum(v)))
